@@ -158,6 +158,14 @@ def rule_operator_table(ctx):
     run.floor(R, 10)
 
 
+def _filter_value_types(prog):
+    m = prog.modules[FIL]
+    for st in m.tree.body:
+        if isinstance(st, ast.Assign) and norm(st.targets[0]) == "FILTER_VALUE_TYPES" and isinstance(st.value, (ast.Tuple, ast.List)):
+            return st.value.elts
+    raise AnalysisError("FILTER_VALUE_TYPES is not a literal tuple of types in %s" % FIL)
+
+
 def rule_timestamp_coercion(ctx):
     """When the stored value is a datetime, timestamp TEXT in the filter value is converted to an instant -- a bare string, and
     every string member of a collection value (`in`); the conversion is the plain one (no precision argument: truncating the
@@ -176,17 +184,37 @@ def rule_timestamp_coercion(ctx):
     F = next(iter(names))
     defs = [a_ for a_ in body_walk(fi.node) if isinstance(a_, ast.Assign) and norm(a_.targets[0]) == F]
     facts = {"string": False, "members": False, "as-given": False}
+    value_types, member_types = set(), set()
+
+    def tested_types(exprs, subject):
+        """the type names T of every `isinstance(<subject>, T)` among the expressions"""
+        out = set()
+        for e in exprs:
+            for c_ in ast.walk(e):
+                if isinstance(c_, ast.Call) and call_simple_name(c_) == "isinstance" and len(c_.args) == 2 and norm(c_.args[0]) == subject:
+                    ts = c_.args[1].elts if isinstance(c_.args[1], ast.Tuple) else [c_.args[1]]
+                    out |= {norm(t).rsplit(".", 1)[-1] for t in ts}
+        return out
+
     for a_ in defs:
-        gs = [(norm(t), pol) for t, pol, _ in guard_chain(a_)]
+        chain = guard_chain(a_)
+        gs = [(norm(t), pol) for t, pol, _ in chain]
         pos = " & ".join(t for t, pol in gs if pol)
+        pos_tests = [t for t, pol, _ in chain if pol]
         v = a_.value
+        vt = tested_types(pos_tests, "self.value")
         if isinstance(v, ast.Call) and call_simple_name(v) == "parse_into_datetime" and len(v.args) == 1 and norm(v.args[0]) == "self.value" \
-                and ("isinstance(%s, datetime)" % objp) in pos and "isinstance(self.value, str)" in pos:
-            facts["string"] = True
+                and ("isinstance(%s, datetime)" % objp) in pos and vt:
+            value_types |= vt
+            if "str" in vt:
+                facts["string"] = True
         elif isinstance(v, (ast.Call, ast.GeneratorExp, ast.ListComp, ast.SetComp)) and ("isinstance(%s, datetime)" % objp) in pos \
                 and any(isinstance(c_, ast.Call) and call_simple_name(c_) == "parse_into_datetime" for c_ in ast.walk(v)) \
                 and any(isinstance(g_, ast.comprehension) and norm(g_.iter) == "self.value" for g_ in ast.walk(v)):
             facts["members"] = True
+            for g_ in ast.walk(v):
+                if isinstance(g_, ast.comprehension) and norm(g_.iter) == "self.value":
+                    member_types |= tested_types([v], norm(g_.target))
         elif norm(v) == "self.value":
             facts["as-given"] = True
     run.check(facts["string"] and facts["as-given"], R, key(rel, fi.qualname, "string-vs-datetime"),
@@ -200,6 +228,17 @@ def rule_timestamp_coercion(ctx):
               line=fi.node.lineno, function=fi.qualname,
               expected="for a datetime property and a list/tuple value: parse_into_datetime(v) for every string member v",
               found=[short(a_) for a_ in defs])
+    # FILTER_VALUE_TYPES admits datetime OBJECTS as filter values; a timezone-naive one means UTC everywhere in the library
+    # (parse_into_datetime says so), but compared as it is with a stored -- aware -- timestamp it is never equal and the order
+    # operators raise TypeError.  Whatever value type can denote an instant goes through the same conversion as the strings.
+    admitted = {norm(e).rsplit(".", 1)[-1] for e in _filter_value_types(prog)}
+    for what, got, ex in (("value", value_types, "isinstance(self.value, (str, datetime)) -> parse_into_datetime(self.value)"),
+                          ("members", member_types, "parse_into_datetime(v) if isinstance(v, (str, datetime)) else v")):
+        run.check("datetime" not in admitted or "datetime" in got, R, key(rel, fi.qualname, "datetime-%s-as-instants" % what),
+                  "a datetime object given as filter %s is compared as it is: a timezone-naive one (UTC, as everywhere else in the "
+                  "library) never equals the stored instant and `<`, `>` abort the query with TypeError, although the same instant as a "
+                  "string or as an aware datetime is compared correctly" % ("value" if what == "value" else "value member (`in`)"),
+                  file=rel, line=fi.node.lineno, function=fi.qualname, expected=ex, found="converted value types: %s" % sorted(got))
     precise = [c_ for c_ in body_walk(fi.node) if isinstance(c_, ast.Call) and call_simple_name(c_) == "parse_into_datetime"
                and (len(c_.args) != 1 or c_.keywords)]
     run.check(not precise, R, key(rel, fi.qualname, "plain-conversion"),
